@@ -595,3 +595,456 @@ def run(ctx) -> None:  # noqa: F811
     ctx.rule("R-AXISFAMILY", "(C13) the radial and the azimuthal index terms are the same formula up to renaming")
     c13._inner_run_c13(OnlyConstructs(ctx, ("abtem.measurements.PolarMeasurements.integrate",)))
     _inner_run_c12b(ctx)
+
+
+# ---- added after the mutation sweep (sweepF): pixel geometry of the mask / bin builders and of the binning kernel
+_inner_run_c12c = run
+GRID = "abtem.core.grid"
+
+
+def _run_deferring(ctx, steps, inner) -> None:
+    """Run the new rule groups, then the earlier rules; an AnalysisError of a new group is raised only afterwards, so
+    that a violation found by any rule decides the run and a lost anchor of one group does not hide the others."""
+    pending = None
+    for step in steps:
+        try:
+            step()
+        except AnalysisError as e:
+            pending = pending or e
+    inner(ctx)
+    if pending is not None:
+        raise pending
+
+
+def _last(c: ast.Call) -> str:
+    return (call_name(c) or "").split(".")[-1]
+
+
+def _parse(s: str) -> ast.expr:
+    return ast.parse(s, mode="eval").body
+
+
+def _stmt_or_header(f: FuncInfo, node: ast.AST) -> ast.stmt:
+    """Statement a node belongs to; for a node in the header of a `for` loop, the loop."""
+    for st in walk_no_nested(f.node):
+        if isinstance(st, ast.For) and any(x is node for x in ast.walk(st.iter)):
+            return st
+    return _enclosing_stmt(f, node)
+
+
+def _pair_literal(df: DataFlow, at: int, e: ast.expr, f: FuncInfo, what: str) -> tuple[ast.Tuple, int]:
+    """`e` as a two-element tuple literal (followed through single plain definitions); (tuple, node it is evaluated at)."""
+    node, hops = at, 0
+    while isinstance(e, ast.Name) and hops < 4:
+        d = df.single_def(node, e.id)
+        if d is None or d.kind != "assign" or d.value is None:
+            break
+        e, node, hops = d.value, d.node, hops + 1
+    if not (isinstance(e, (ast.Tuple, ast.List)) and len(e.elts) == 2):
+        raise AnalysisError(f"{f.qualname}: {what} `{norm_text(e)[:50]}` is not a pair literal")
+    return e, node
+
+
+def _no_opaque_calls(f: FuncInfo, r, what: str) -> None:
+    """A term that still contains an uninterpreted call (floor(x + 0.5), a helper, ...) is not judged."""
+    import re as _re
+
+    for a in r.atoms():
+        if _re.search(r"[A-Za-z_][\w.]*\(", a):
+            raise AnalysisError(f"{f.qualname}: {what} contains the uninterpreted call `{a[:50]}`")
+
+
+def _freqgrid(ctx, repo, f: FuncInfo) -> None:
+    """R-FREQGRID for one builder: pitch of the frequency grid along axis k == sampling[k]."""
+    calls = [c for c in walk_no_nested(f.node) if isinstance(c, ast.Call)
+             and _last(c) in ("spatial_frequencies", "polar_spatial_frequencies")]
+    ctx.require(len(calls) == 1, f"{f.qualname}: expected one (polar_)spatial_frequencies call, found {len(calls)}")
+    c = calls[0]
+    callee = repo.function(GRID, _last(c))
+    b = bind_args(c, callee)
+    ctx.require("gpts" in b and "sampling" in b, f"{f.qualname}: gpts/sampling not handed to {callee.short}")
+    ctx.require({"gpts", "sampling"} <= set(f.params), f"{f.qualname}: parameters gpts/sampling not found")
+    df = DataFlow(f.node)
+    at = df.cfg.node_of(_enclosing_stmt(f, c)).idx
+    nz = RatFlow(df, at)
+    ctx.check(nz.norm(b["gpts"]) == nz.norm(_parse("gpts")), "R-FREQGRID", f"{f.qualname}:points", f.loc(c),
+              "the frequency grid has the builder's own number of points per axis",
+              f"{callee.short} is given gpts={norm_text(b['gpts'])[:50]}, not the builder's `gpts`: the mask does not "
+              "have the shape of the pattern", key_detail="gpts")
+    pair, node = _pair_literal(df, at, b["sampling"], f, "the real-space sampling handed to the frequency grid")
+    nzp = RatFlow(df, node)
+    for k in (0, 1):
+        d = nzp.rat(pair.elts[k])
+        step = (nzp.rat(_parse(f"gpts[{k}]")) * d).inverse()
+        want = nzp.rat(_parse(f"sampling[{k}]"))
+        if step != want:
+            _no_opaque_calls(f, d, "the real-space sampling handed to the frequency grid")
+        ctx.check(step == want, "R-FREQGRID", f"{f.qualname}:axis {k}", f.loc(pair.elts[k]),
+                  f"fftfreq(gpts[{k}], d) with d = {norm_text(pair.elts[k])[:40]} has pitch 1/(gpts[{k}] d) = sampling[{k}]",
+                  f"along axis {k} the frequency grid is fftfreq(gpts[{k}], d) with d = {norm_text(pair.elts[k])[:60]}: "
+                  f"its pitch 1/(gpts[{k}]*d) = {step.key()[:80]} is not sampling[{k}], the angular pixel size the "
+                  "pattern has along that axis (limits are applied at the wrong angles for non-square grids / "
+                  "anisotropic sampling)", key_detail=f"pitch{k}")
+
+
+def _radius_is_sum_of_squares(ctx, repo) -> None:
+    f = repo.function(MEAS, "_annular_detector_mask")
+    found = _bound_comparisons(f, "inner", "outer")
+    ctx.require(len(found["inner"]) == 1, f"{f.qualname}: comparison with `inner` not found")
+    _, coord, _, node = found["inner"][0]
+    unpack = [st for st in walk_no_nested(f.node) if isinstance(st, ast.Assign) and isinstance(st.value, ast.Call)
+              and _last(st.value) == "spatial_frequencies" and isinstance(st.targets[0], ast.Tuple)
+              and len(st.targets[0].elts) == 2 and all(isinstance(e, ast.Name) for e in st.targets[0].elts)]
+    ctx.require(len(unpack) == 1, f"{f.qualname}: `x, y = spatial_frequencies(...)` not found")
+    X, Y = (e.id for e in unpack[0].targets[0].elts)
+    mk = lambda s: Normalizer().norm(_parse(s))
+    xr, yr = [mk(f"{X}[:, None] ** 2")], [mk(f"{Y}[None] ** 2"), mk(f"{Y}[None, :] ** 2")]
+    xs, ys = [mk(f"{X}[None] ** 2"), mk(f"{X}[None, :] ** 2")], [mk(f"{Y}[:, None] ** 2")]
+    construct = f"{f.qualname}:radius"
+    if any(coord == a + b for a in xr for b in yr):
+        ctx.ok("R-FREQGRID", construct, f.loc(node), "squared radius = x[:, None]^2 + y[None]^2")
+    elif any(coord == a + b for a in xs for b in ys):
+        ctx.violation("R-FREQGRID", construct, f.loc(node),
+                      f"the squared radius {coord.key()[:80]} puts the x-frequencies along the last axis and the "
+                      "y-frequencies along axis -2: the mask is transposed for non-square patterns", key_detail="axes")
+    elif any(set(coord.terms) == set((a + b).terms) for a in xr for b in yr):
+        ctx.violation("R-FREQGRID", construct, f.loc(node),
+                      f"the quantity compared with inner^2/outer^2 is {coord.key()[:80]}, not the sum of the squared "
+                      "x- and y-frequencies: the selected region is not an annulus", key_detail="sum")
+    else:
+        raise AnalysisError(f"{f.qualname}: radial coordinate {coord.key()[:80]} not recognised")
+
+
+# -------- R-OFFSETPIX
+def _guard_value(test: ast.expr, offset_name: str, scen: tuple[bool, bool], f: FuncInfo):
+    """Truth value of the guard of the roll for one scenario (component k of the offset non-zero iff scen[k]).
+    Vectors are pairs of booleans 'is non-zero'."""
+
+    def is_zero_const(e):
+        return isinstance(e, ast.Constant) and isinstance(e.value, (int, float)) and not isinstance(e.value, bool) \
+            and e.value == 0
+
+    def ev(e):
+        if isinstance(e, ast.UnaryOp) and isinstance(e.op, ast.Not):
+            v = ev(e.operand)
+            if not isinstance(v, bool):
+                raise AnalysisError(f"{f.qualname}: `not` applied to a vector in the offset guard")
+            return not v
+        if isinstance(e, ast.BoolOp):
+            vs = [ev(v) for v in e.values]
+            if not all(isinstance(v, bool) for v in vs):
+                raise AnalysisError(f"{f.qualname}: vector used as a truth value in the offset guard")
+            return all(vs) if isinstance(e.op, ast.And) else any(vs)
+        if isinstance(e, ast.Name) and e.id == offset_name:
+            return ("nz", scen)
+        if isinstance(e, ast.Subscript) and isinstance(e.value, ast.Name) and e.value.id == offset_name \
+                and isinstance(e.slice, ast.Constant) and e.slice.value in (0, 1):
+            return ("nzs", scen[e.slice.value])
+        if isinstance(e, ast.Call):
+            fn = _last(e)
+            if fn in ("array", "asarray", "abs", "absolute", "tuple", "list") and len(e.args) >= 1:
+                return ev(e.args[0])
+            if fn in ("any", "all") and len(e.args) == 1:
+                v = ev(e.args[0])
+                if isinstance(v, tuple) and v[0] == "bools":
+                    return any(v[1]) if fn == "any" else all(v[1])
+                if isinstance(v, tuple) and v[0] == "nz":  # truthiness of the components themselves
+                    return any(v[1]) if fn == "any" else all(v[1])
+        if isinstance(e, ast.Compare) and len(e.ops) == 1 and isinstance(e.ops[0], (ast.Eq, ast.NotEq)):
+            l, r = e.left, e.comparators[0]
+            if is_zero_const(l):
+                l, r = r, l
+            if is_zero_const(r):
+                v = ev(l)
+                neq = isinstance(e.ops[0], ast.NotEq)
+                if isinstance(v, tuple) and v[0] == "nz":
+                    return ("bools", tuple(x if neq else not x for x in v[1]))
+                if isinstance(v, tuple) and v[0] == "nzs":
+                    return v[1] if neq else not v[1]
+        raise AnalysisError(f"{f.qualname}: cannot evaluate the guard `{norm_text(test)[:60]}` of the offset roll")
+
+    v = ev(test)
+    if not isinstance(v, bool):
+        raise AnalysisError(f"{f.qualname}: the guard `{norm_text(test)[:60]}` of the offset roll is not a truth value")
+    return v
+
+
+def _offset_roll(ctx, repo, f: FuncInfo) -> None:
+    """R-OFFSETPIX for one builder."""
+    ctx.require({"offset", "sampling"} <= set(f.params), f"{f.qualname}: parameters offset/sampling not found")
+    rolls = [c for c in walk_no_nested(f.node) if isinstance(c, ast.Call) and _last(c) == "roll"]
+    ctx.require(len(rolls) == 1, f"{f.qualname}: expected one roll applying the detector offset, found {len(rolls)}")
+    c = rolls[0]
+    args = list(c.args)
+    shift = kw(c, "shift") or (args[1] if len(args) > 1 else None)
+    axes = kw(c, "axis") or (args[2] if len(args) > 2 else None)
+    ctx.require(shift is not None and axes is not None, f"{f.qualname}: roll without shift/axis")
+    df = DataFlow(f.node)
+    st = _enclosing_stmt(f, c)
+    at = df.cfg.node_of(st).idx
+    pair, node = _pair_literal(df, at, shift, f, "the shift of the offset roll")
+    ax = None
+    try:
+        ax = ast.literal_eval(axes)
+    except Exception:
+        pass
+    ctx.require(isinstance(ax, tuple) and len(ax) == 2 and all(isinstance(i, int) for i in ax),
+                f"{f.qualname}: roll axes `{norm_text(axes)}` are not a literal pair")
+    nz = RatFlow(df, node, identity_calls={"int", "round", "np.round", "np.rint", "xp.round", "xp.rint"})
+    for k in (0, 1):
+        got = nz.rat(pair.elts[k])
+        want = nz.rat(_parse(f"offset[{k}] / sampling[{k}]"))
+        if got != want:
+            _no_opaque_calls(f, got, "the pixel shift of the detector offset")
+        ctx.check(got == want and ax[k] in (k, k - 2), "R-OFFSETPIX", f"{f.qualname}:component {k}", f.loc(pair.elts[k]),
+                  f"shift along axis {k} = round(offset[{k}] / sampling[{k}]) pixels",
+                  f"the detector is moved by {got.key()[:80]} pixels along axis {ax[k]}; an offset of offset[{k}] mrad is "
+                  f"offset[{k}] / sampling[{k}] pixels along axis {k} (the sibling builder and the documentation use "
+                  "that conversion)", key_detail=f"shift{k}")
+    # the roll is skipped only when both components vanish
+    # innermost guard only: nested guards are not expected here
+    inner = [n for n in walk_no_nested(f.node) if isinstance(n, ast.If)
+             and any(x is st for b in (n.body + n.orelse) for x in ast.walk(b))]
+    if not inner:
+        ctx.ok("R-OFFSETPIX", f"{f.qualname}:guard", f.loc(c), "the roll is unconditional")
+        return
+    ctx.require(len(inner) == 1, f"{f.qualname}: the offset roll sits under {len(inner)} nested conditions")
+    test, in_body = inner[0].test, any(x is st for b in inner[0].body for x in ast.walk(b))
+    # the name tested is the offset parameter as it reaches the test
+    skipped = []
+    for scen in ((True, False), (False, True), (True, True)):
+        if _guard_value(test, "offset", scen, f) != in_body:
+            skipped.append("(" + ", ".join("a" if s else "0" for s in scen) + ")")
+    ctx.check(not skipped, "R-OFFSETPIX", f"{f.qualname}:guard", f.loc(test),
+              "the roll is applied whenever a component of the offset is non-zero",
+              f"under the condition `{norm_text(test)[:60]}` the roll is skipped for offsets of the form "
+              f"{', '.join(skipped)} (a != 0): the detector offset is silently ignored", key_detail="guard")
+
+
+# -------- R-LABELS
+def _fill_value(e: ast.expr):
+    """Constant an array-filling expression holds everywhere: ±ones/zeros/full arithmetic."""
+
+    def hook(nz, call):
+        fn = _last(call)
+        if fn in ("ones", "ones_like"):
+            return Poly.const(1)
+        if fn in ("zeros", "zeros_like"):
+            return Poly.const(0)
+        if fn in ("full", "full_like") and len(call.args) >= 2:
+            return nz.norm(call.args[1])
+        if fn == "full" and kw(call, "fill_value") is not None:
+            return nz.norm(kw(call, "fill_value"))
+        return None
+
+    return Normalizer(call_hook=hook).norm(e).const_value()
+
+
+def _labels(ctx, repo) -> None:
+    f = repo.function(MEAS, "_polar_detector_bins")
+    df = DataFlow(f.node)
+    lti = [c for c in walk_no_nested(f.node) if isinstance(c, ast.Call) and _last(c) == "label_to_index"]
+    ctx.require(len(lti) == 1 and lti[0].args and isinstance(lti[0].args[0], ast.Name),
+                f"{f.qualname}: label_to_index(<labels>, <max>) call not found")
+    call = lti[0]
+    callee = repo.function("abtem.core.utils", "label_to_index")
+    b = bind_args(call, callee)
+    at = df.cfg.node_of(_stmt_or_header(f, call)).idx
+    # number of index lists = max_label - min_label + 1 = nbins_radial * nbins_azimuthal
+    ctx.require("max_label" in b, f"{f.qualname}: label_to_index is not given a maximum label")
+    nz = FlowNormalizer(df, at)
+    lo = nz.norm(b["min_label"]) if "min_label" in b else Normalizer().norm(callee.defaults().get("min_label") or _parse("0"))
+    count = nz.norm(b["max_label"]) - lo + Poly.const(1)
+    want = nz.norm(_parse("nbins_radial * nbins_azimuthal"))
+    ctx.check(count == want, "R-LABELS", f"{f.qualname}:label-count", f.loc(call),
+              "index lists are produced for labels 0 .. nbins_radial*nbins_azimuthal - 1",
+              f"label_to_index yields {count.key()[:60]} index lists; the binned result is reshaped to "
+              "(nbins_radial, nbins_azimuthal), i.e. nbins_radial*nbins_azimuthal bins", key_detail="count")
+    # the fill value of the label image is not a label
+    var = call.args[0].id
+    seen, fills, work = set(), [], [(at, var)]
+    while work:
+        n_, v_ = work.pop()
+        for d in df.reaching(n_, v_):
+            if (d.node, d.var, d.kind) in seen:
+                continue
+            seen.add((d.node, d.var, d.kind))
+            if d.kind == "param":
+                raise AnalysisError(f"{f.qualname}: the label image is a parameter")
+            if d.kind == "store":
+                continue  # masked store of real labels
+            if d.kind != "assign" or d.value is None:
+                raise AnalysisError(f"{f.qualname}: label image defined by {d.kind}")
+            v = d.value
+            if isinstance(v, ast.Name):
+                work.append((d.node, v.id))  # a plain copy of the reference
+                continue
+            if isinstance(v, ast.Call) and v.args and isinstance(v.args[0], ast.Name) and _last(v) in (
+                    "roll", "fftshift", "ifftshift", "asarray", "array"):
+                work.append((d.node, v.args[0].id))  # a rearrangement of an earlier label image
+                continue
+            fills.append((d, v))
+    ctx.require(bool(fills), f"{f.qualname}: initial value of the label image not found")
+    for d, v in fills:
+        c = _fill_value(v)
+        if c is None:
+            raise AnalysisError(f"{f.qualname}: the label image starts as `{norm_text(v)[:50]}`, not a constant fill")
+        ctx.check(c < 0, "R-LABELS", f"{f.qualname}:fill", f.loc(v),
+                  f"pixels outside [inner, outer) keep the label {c}, which label_to_index never yields",
+                  f"the label image is initialised to {c}; pixels outside [inner, outer) are only overwritten where "
+                  f"`valid`, so they stay labelled {c} and are summed into bin {c}: the segments no longer add up to "
+                  "the annulus", key_detail="fill")
+
+
+# -------- R-ACCUM
+def _written_params(repo, g: FuncInfo, depth: int = 0) -> tuple[set[str], set[str]]:
+    """(parameters the function stores into, parameters it reads elements of), following a launch/forward of the
+    positional parameters to a function of the same module (one more level)."""
+    written, read = set(), set()
+    params = set(g.params)
+    for n in walk_no_nested(g.node):
+        tgts = []
+        if isinstance(n, ast.Assign):
+            tgts = n.targets
+        elif isinstance(n, ast.AugAssign):
+            tgts = [n.target]
+        for t in tgts:
+            if isinstance(t, ast.Subscript) and isinstance(t.value, ast.Name) and t.value.id in params:
+                written.add(t.value.id)
+        if isinstance(n, (ast.Assign, ast.AugAssign)):
+            for m in ast.walk(n.value):
+                if isinstance(m, ast.Subscript) and isinstance(m.value, ast.Name) and m.value.id in params:
+                    read.add(m.value.id)
+        if isinstance(n, ast.Call) and depth < 2:
+            fn = n.func.value if isinstance(n.func, ast.Subscript) else n.func  # kernel[grid, block](...)
+            if isinstance(fn, ast.Name) and fn.id in g.module.functions and fn.id != g.name:
+                h = g.module.functions[fn.id]
+                w2, r2 = _written_params(repo, h, depth + 1)
+                for p, a in zip(h.positional_params, n.args):
+                    if isinstance(a, ast.Name) and a.id in params:
+                        if p in w2:
+                            written.add(a.id)
+                        if p in r2:
+                            read.add(a.id)
+    return written, read
+
+
+def _accumulate(ctx, repo) -> None:
+    f = repo.method(MEAS, "DiffractionPatterns", "_radial_binning")
+    df = DataFlow(f.node)
+    rets = [r for r in walk_no_nested(f.node) if isinstance(r, ast.Return) and r.value is not None]
+    ctx.require(len(rets) == 1, f"{f.qualname}: single return expected")
+    v = rets[0].value
+    while isinstance(v, ast.Call) and isinstance(v.func, ast.Attribute) and v.func.attr in ("reshape", "astype"):
+        v = v.func.value
+    ctx.require(isinstance(v, ast.Name), f"{f.qualname}: the returned value is not a (reshaped) local array")
+    rnode = df.cfg.node_of(rets[0]).idx
+    d_out = df.single_def(rnode, v.id)
+    if d_out is None:
+        strong = [d for d in df.reaching(rnode, v.id) if d.strong]
+        ctx.require(len(strong) == 1, f"{f.qualname}: the output array has {len(strong)} allocations")
+        d_out = strong[0]
+    ctx.require(d_out.kind == "assign" and isinstance(d_out.value, ast.Call) and _last(d_out.value) == "zeros",
+                f"{f.qualname}: the output array is not allocated by zeros(...)")
+    out = v.id
+    mod = f.module
+    acc_nodes, n_calls = set(), 0
+    gathered_defs = []
+    for st in walk_no_nested(f.node):
+        if not (isinstance(st, ast.Expr) and isinstance(st.value, ast.Call)):
+            continue
+        c = st.value
+        if not any(isinstance(a, ast.Name) and a.id == out for a in list(c.args) + [k.value for k in c.keywords]):
+            continue
+        n_calls += 1
+        g = repo.resolve_name(mod, call_name(c) or "")
+        if not isinstance(g, FuncInfo):
+            raise AnalysisError(f"{f.qualname}: cannot resolve the kernel `{call_name(c)}` the output array is handed to")
+        written, read = _written_params(repo, g)
+        b = bind_args(c, g)
+        p_out = [p for p, a in b.items() if isinstance(a, ast.Name) and a.id == out]
+        construct = f"{f.qualname}->{g.short}"
+        good = bool(p_out) and all(p in written for p in p_out)
+        ctx.check(good, "R-ACCUM", f"{construct}:output", f.loc(c),
+                  f"the zero-initialised output is bound to `{p_out[0] if p_out else '?'}`, which {g.short} accumulates into",
+                  f"the zero-initialised output array is bound to parameter {p_out} of {g.short}, which that kernel does "
+                  f"not store into (it writes {sorted(written)}): the binned sums never reach the returned array",
+                  key_detail="output")
+        at = df.cfg.node_of(st).idx
+        srcs = [(p, a) for p, a in b.items() if p in read and p not in written and isinstance(a, ast.Name)
+                and any(d.kind == "assign" and isinstance(d.value, ast.Subscript) for d in df.reaching(at, a.id))]
+        ctx.check(len(srcs) >= 1, "R-ACCUM", f"{construct}:input", f.loc(c),
+                  "the gathered pixel array is bound to the parameter the kernel reads",
+                  f"no parameter that {g.short} reads ({sorted(read - written)}) receives the gathered pixel array",
+                  key_detail="input")
+        for p, a in srcs:
+            for d in df.reaching(at, a.id):
+                if d.kind == "assign" and isinstance(d.value, ast.Subscript):
+                    gathered_defs.append(d)
+        if good:
+            acc_nodes.add(at)
+    reach = df.cfg.paths_avoiding(d_out.node, rnode, acc_nodes)
+    ctx.check(not reach, "R-ACCUM", f"{f.qualname}:every-path", f.loc(rets[0]),
+              "on every path the zero-initialised output passes through a summation kernel before it is returned",
+              "there is a path from the allocation of the zero-initialised output to the return on which no summation "
+              "kernel accumulates into it: all bins are returned as 0", key_detail="path")
+    # the gather: pixels flattened row-major over the two pattern axes, selected by the concatenated index lists
+    seen = set()
+    for d in gathered_defs:
+        if d.node in seen:
+            continue
+        seen.add(d.node)
+        sub = d.value
+        base = sub.value
+        ctx.require(isinstance(base, ast.Call) and isinstance(base.func, ast.Attribute) and base.func.attr == "reshape"
+                    and isinstance(base.func.value, ast.Name), f"{f.qualname}: the gathered array is not "
+                    "`<array>.reshape((-1, n))[..., <indices>]`")
+        src = base.func.value.id
+        shp = base.args[0] if len(base.args) == 1 else ast.Tuple(elts=list(base.args), ctx=ast.Load())
+        ctx.require(isinstance(shp, ast.Tuple) and len(shp.elts) == 2, f"{f.qualname}: the pixels are not flattened to "
+                                                                        "(batch, pixels)")
+        nz = FlowNormalizer(df, d.node)
+        ctx.check(nz.norm(shp.elts[0]) == Poly.const(-1) and nz.norm(shp.elts[1]) == nz.norm(
+            _parse(f"{src}.shape[-2] * {src}.shape[-1]")), "R-ACCUM", f"{f.qualname}:flatten", f.loc(base),
+                  "each pattern is flattened to shape[-2]*shape[-1] pixels (the order label_to_index numbers them in)",
+                  f"the patterns are flattened with reshape({norm_text(shp)[:60]}): a row is not the shape[-2]*shape[-1] "
+                  "pixels of one pattern, so the index lists from label_to_index address other pixels",
+                  key_detail="flatten")
+    # the index lists are requested from the bin builder
+    pdb = repo.function(MEAS, "_polar_detector_bins")
+    for c in _calls_to(f, "_polar_detector_bins"):
+        b = bind_args(c, pdb)
+        ri = b.get("return_indices")
+        is_true = isinstance(ri, ast.Constant) and ri.value is True
+        ctx.check(is_true, "R-ACCUM", f"{f.qualname}->{pdb.short}:return_indices", f.loc(c),
+                  "the per-bin index lists are requested (return_indices=True)",
+                  f"_polar_detector_bins is called with return_indices={norm_text(ri) if ri is not None else '<default False>'}"
+                  ": it returns the label image, whose rows are then used as if they were per-bin index lists",
+                  key_detail="indices")
+
+
+def run(ctx) -> None:  # noqa: F811
+    repo = ctx.repo
+    ctx.rule("R-FREQGRID", "_annular_detector_mask and _polar_detector_bins lay the limits over a frequency grid "
+             "fftfreq(gpts[k], d_k); its pitch 1/(gpts[k] d_k) along axis k must be sampling[k], the angular pixel size "
+             "of axis k of the pattern the mask multiplies (rational-function identity per axis, so the x quantities "
+             "pair with x and y with y), with the builder's own gpts; the annular mask compares the limits with "
+             "x[:, None]^2 + y[None]^2.  Otherwise the two builders, and the limits the detectors publish, refer to "
+             "different angles on non-square or anisotropically sampled patterns")
+    ctx.rule("R-OFFSETPIX", "both builders move the detector by round(offset[k] / sampling[k]) pixels along axis k "
+             "(the same conversion in the mask and in the bin builder, so an annular and a segmented detector with "
+             "the same offset cover the same pixels) and skip the roll only when every offset component is zero")
+    ctx.rule("R-LABELS", "in _polar_detector_bins the label image is initialised to a value that is not a bin label "
+             "(negative), so that pixels outside [inner, outer) belong to no segment, and label_to_index is asked for "
+             "exactly nbins_radial*nbins_azimuthal labels — otherwise the sum over all segments is not the annular "
+             "intensity")
+    ctx.rule("R-ACCUM", "_radial_binning returns an array allocated by zeros(...) that on every path is handed to a "
+             "summation kernel at the parameter that kernel accumulates into, with the gathered pixels at the parameter "
+             "it reads; the pixels are flattened to shape[-2]*shape[-1] per pattern and the per-bin index lists are "
+             "requested from the bin builder")
+    steps = []
+    for name in ("_annular_detector_mask", "_polar_detector_bins"):
+        f = repo.function(MEAS, name)
+        steps += [lambda f=f: _freqgrid(ctx, repo, f), lambda f=f: _offset_roll(ctx, repo, f)]
+    steps += [lambda: _radius_is_sum_of_squares(ctx, repo), lambda: _labels(ctx, repo), lambda: _accumulate(ctx, repo)]
+    _run_deferring(ctx, steps, _inner_run_c12c)
